@@ -205,6 +205,7 @@ fn run_conc(sc: &Value, c: Cipher, users: usize, seed: u64) -> Value {
 fn run_msg(sc: &Value, seed: u64) -> Vec<Value> {
     let kind = sc["kind"].as_str().unwrap_or("");
     let dts = sc["dts"].as_i64().unwrap_or(0);
+    let ext = sc["ext"].as_str().unwrap_or("no");
     let typ = sc["typ"].as_u64().unwrap_or(0) as u8;
     let echo_own = sc["echo"].as_str() == Some("own");
     let auth = sc["auth"].as_str().unwrap_or("ok");
@@ -214,7 +215,20 @@ fn run_msg(sc: &Value, seed: u64) -> Vec<Value> {
     for _attempt in 0..6 {
         out.clear();
         let t0 = rc::unix_now();
-        let ts = (t0 as i64 + dts) as u64;
+        // the Shadowsocks field is unsigned, the VMess one signed; "wrap" is the value whose distance from the
+        // receiver's clock is i64::MIN when taken as a signed 64-bit difference
+        let ts = match ext {
+            "lo" => 0,
+            "hi" => u64::MAX,
+            "wrap" => t0.wrapping_add(1 << 63),
+            _ => (t0 as i64 + dts) as u64,
+        };
+        let vts = match ext {
+            "lo" => i64::MIN,
+            "hi" => i64::MAX,
+            "wrap" => i64::MIN.wrapping_add(t0 as i64),
+            _ => t0 as i64 + dts,
+        };
         match kind {
             "ss-resp" => {
                 for c in C2022 {
@@ -259,7 +273,7 @@ fn run_msg(sc: &Value, seed: u64) -> Vec<Value> {
                     let uuid = if auth == "unknownuser" { sut::UUID_X } else { sut::UUID_A };
                     let ck = rv::cmd_key(uuid).unwrap();
                     let req = rv::VmessReq { iv: rng.random(), key: rng.random(), resp_auth: rng.random(), option: 0x1d, security: sec, cmd: 1, addr: addr.clone(), header_padding: 5 };
-                    let aid = rv::auth_id(&ck, t0 as i64 + dts, rng.random(), auth == "badcrc");
+                    let aid = rv::auth_id(&ck, vts, rng.random(), auth == "badcrc");
                     let mut wire = rv::seal_request_header(&ck, &aid, &rng.random(), &req.plain_header());
                     let mut body = rv::VmessBody::new(req.option, sec, req.key, req.iv, req.key, req.iv);
                     body.chunk(b"hello", &mut wire);
